@@ -2,6 +2,7 @@ import KV.PlanLemmas
 import KV.Acyclic
 import KV.Generated.Orders
 import KV.Refuse
+import KV.Accept
 /-! # C09 — unsatisfiable graphs are refused, satisfiable ones accepted, never mis-generated
 
 Property statements only. -/
@@ -73,5 +74,26 @@ theorem C09_refuse_cycle_decl {provs0 : List PSpec} {ret rp q : Nat} {prp : PSpe
 theorem C09_accepted_acyclic {provs : List PSpec} {ret : Nat} {p : PlanOut} (h : plan provs ret = .ok p) (n : Nat) :
     ¬ Path p.g n n :=
   accepted_acyclic h n
+
+/-- **Acceptance.**  A declaration that is unambiguous and whose struct expansions all have a source
+    (`supplierMap` succeeds), whose requested type has a supplier, and whose needed providers contain no cycle is
+    accepted by the planner.  (The hypothesis that the requested type has a supplier is the recorded finding
+    `identity-injector-refused`.) -/
+theorem C09_accept {provs0 : List PSpec} {ret : Nat} {provs : List PSpec} {sup : SupMap} {rp ri : Nat}
+    (hexp : supplierMap provs0 = .ok (provs, sup)) (hret : sup.lookup ret = some (rp, ri))
+    (hacyc : ∀ q, KV.Reach (Needs provs sup) rp q → ¬ Relation.TransGen (Needs provs sup) q q) :
+    ∃ p, plan provs0 ret = .ok p :=
+  accepted_of_acceptable hexp hret hacyc
+
+/-- **Exact characterisation**: with an unambiguous, fully sourced declaration and a supplied requested type, the
+    planner accepts iff no needed provider lies on a dependency cycle. -/
+theorem C09_accept_iff {provs0 : List PSpec} {ret : Nat} {provs : List PSpec} {sup : SupMap} {rp ri : Nat}
+    (hexp : supplierMap provs0 = .ok (provs, sup)) (hret : sup.lookup ret = some (rp, ri)) :
+    (∃ p, plan provs0 ret = .ok p) ↔
+      (∀ q, KV.Reach (Needs provs sup) rp q → ¬ Relation.TransGen (Needs provs sup) q q) :=
+  accepted_iff_acyclic hexp hret
+
+/-- the known deviation, as a theorem about the model: a requested type nobody supplies is refused -/
+theorem C09_identity_refused_witness : (match plan [] 5 with | .error .noInitial => true | _ => false) = true := by decide
 
 end C09
